@@ -7,6 +7,9 @@
 //   dcfg <chunkRange> <oooWindow>
 //   dapp <t> <hist> <adm>         -> ok | err-…        (adm = observed admission, oracle for the model)
 //   dflush | dooo | dcompact | dreopen              -> ok | err-…
+//     a persist op (dflush/dooo/dcompact) that failed while re-encoding a chunk is emitted as
+//     `<op> reencode-failed` -> err-reencode   (observed outcome, oracle: the judge classifies it by the
+//     accepted samples — finding C11-F1 — or flags it); any d-op before dcfg -> no-db
 //   dq <mint> <maxt> <hints>      -> t=sem;…     semantic form + hint (hints = observed, oracle)
 package main
 
@@ -279,7 +282,23 @@ func runCase(c *h.Ctx, ops []string) {
 		f := strings.Fields(op)
 		out := "bad-op"
 		emit := op
+		// A persist op that failed while re-encoding a chunk (finding C11-F1: a gauge chunk holding a
+		// staleness marker cannot be re-encoded; reported by suite hist for CompactHead, reached here also
+		// through CompactOOOHead / Compact) says so in the op line: this suite only looks at hints, the data
+		// stays readable from the head / OOO head, and the judge decides by the accepted samples whether the
+		// failure is that finding (observation) or anything else (op-failed).
+		reencode := func(op, out string) string {
+			if out == "err-reencode" {
+				c.Count(op + ":reencode-failed")
+				return op + " reencode-failed"
+			}
+			return op
+		}
 		p, pv := h.Try(func() {
+			if strings.HasPrefix(f[0], "d") && f[0] != "dcfg" && de.db == nil {
+				out = "no-db" // replayed / shrunk op list without its dcfg line: not a failure of prometheus
+				return
+			}
 			switch f[0] {
 			case "sapp":
 				si, _ := strconv.Atoi(f[1])
@@ -326,9 +345,11 @@ func runCase(c *h.Ctx, ops []string) {
 				}
 			case "dcompact":
 				out = errClass(de.db.Compact(context.Background()))
+				emit = reencode("dcompact", out)
 				c.Count(fmt.Sprintf("blocks:%d", len(de.db.Blocks())))
 			case "dooo":
 				out = errClass(de.db.CompactOOOHead(context.Background()))
+				emit = reencode("dooo", out)
 				c.Count(fmt.Sprintf("blocks:%d", len(de.db.Blocks())))
 			case "dflush":
 				hd := de.db.Head()
@@ -337,12 +358,7 @@ func runCase(c *h.Ctx, ops []string) {
 					return
 				}
 				out = errClass(de.db.CompactHead(tsdb.NewRangeHead(hd, hd.MinTime(), hd.MaxTime())))
-				if out == "err-reencode" {
-					// finding C11-F1 (gauge chunk with a stale marker cannot be re-encoded): reported by
-					// suite hist; this suite only looks at hints, the data stays readable from the head
-					c.Count("dflush:C11-F1")
-					out = "ok"
-				}
+				emit = reencode("dflush", out)
 				c.Count(fmt.Sprintf("blocks:%d", len(de.db.Blocks())))
 			case "dq":
 				mint, _ := strconv.ParseInt(f[1], 10, 64)
